@@ -174,7 +174,48 @@ def run_selftest_race(req):
     return {"obs": obs, "stats": {"mode_checks": 1}}
 
 
+def run_reset_race(req):
+    """set_trickery_enabled(True) is in force; while an extraction is reading the setting, another thread (played by a trace
+    function, at the k-th line executed inside the reader) calls set_trickery_enabled(None).  From True to auto-detection
+    the setting is never False: that extraction must still use trickery, for every k."""
+    import sys
+    obs = []
+    g = ref_gen()
+    next(g)
+    npoints = 0
+    for k in range(1, 12):
+        set_trickery_enabled(True)
+        state = {"n": 0, "fired": False}
+
+        def tracer(frame, event, arg, state=state, k=k):
+            if frame.f_code.co_name != "_check_trickery_available":
+                return tracer if event == "call" else None
+            if event == "line":
+                state["n"] += 1
+                if state["n"] == k and not state["fired"]:
+                    state["fired"] = True
+                    sys.settrace(None)
+                    set_trickery_enabled(None)
+                    return None
+            return tracer
+
+        sys.settrace(tracer)
+        try:
+            m = mode_in_force(g)
+        finally:
+            sys.settrace(None)
+        if not state["fired"]:
+            break
+        npoints += 1
+        if m != "trickery":
+            obs.append({"kind": "setting_reset_to_auto_detection_while_being_read_gave_another_mode", "k": k, "mode": m})
+    set_trickery_enabled(None)
+    return {"obs": obs[:3], "stats": {"reset_points": npoints}}
+
+
 def handle(req):
+    if req["op"] == "modes.reset_race":
+        return run_reset_race(req)
     if req["op"] == "modes.selftest_race":
         return run_selftest_race(req)
     if req["op"] == "modes.run":
